@@ -111,3 +111,58 @@ class to_transposed_step:
 
     def post_loop_goes_on(flow):
         return flow == 'next'
+
+
+# ------------------------------------------------------------------------------------------------ before and after the walk
+from kernpy.core.document import MultistageTree
+from pyvc.ghost import ghost_events
+
+
+def mk_small_document(g):
+    root = g.new(Node, {'id': 0, 'token': None, 'parent': None, 'children': [], 'stage': 0, 'header_node': None,
+                        'last_signature_nodes': None, 'last_spine_operator_node': None}, None)
+    tree = g.new(MultistageTree, {'root': root, 'stages': [[root]]}, None)
+    doc = g.new(Document, {'tree': tree, 'measure_start_tree_stages': [], 'page_bounding_boxes': {}, 'header_stage': None}, None)
+    if not hasattr(doc, 'fields'):
+        root.id, root.token, root.parent, root.children, root.stage, root.header_node = 0, None, None, [], 0, None
+        root.last_signature_nodes, root.last_spine_operator_node = None, None
+        tree.root, tree.stages = root, [[root]]
+        doc.tree, doc.measure_start_tree_stages, doc.page_bounding_boxes, doc.header_stage = tree, [], {}, None
+    return doc
+
+
+@contract(DOC + 'to_transposed', props=['C15'], name='to_transposed_head', use_at_calls=False)
+class to_transposed_head:
+    """At the head of the walk: an interval name outside the table or a direction other than 'up' / 'down' is refused with ValueError
+    before anything is copied; otherwise the walk starts on a new Document object (never on the source) at the root of its tree, and
+    nothing of the source has been written.  (That the *tree* of the new document shares its nodes with the source is the known
+    finding of C15 -- the clause here is about the Document object only.)"""
+    cut = 'while not queue.empty()'
+    assumes = (A_QUEUE,)
+
+    def inputs(g):
+        interval = g.choice('interval', ['P5', 'm3', 'octave', 'X9', ''])
+        direction = g.choice('direction', ['up', 'down', 'sideways', 'UP'])
+        return {'self': mk_small_document(g), 'interval': interval, 'direction': direction}
+
+    def raises(interval, direction):
+        return {'ValueError': disj(not (interval in AVAILABLE_INTERVALS), not (direction in ('up', 'down')))}
+
+    def cut_walk_starts_on_a_new_document(self, new_document, root):
+        return conj(new_document is not self, root is new_document.tree.root)
+
+
+@contract(DOC + 'to_transposed', props=['C15'], name='to_transposed_tail')
+class to_transposed_tail:
+    """After the walk (tail contract): the document returned is the one the walk worked on."""
+    tail = 'while not queue.empty()'
+
+    def inputs(g):
+        doc = mk_small_document(g)
+        return {'self': mk_small_document(g), 'interval': 'P5', 'direction': 'up', 'new_document': doc, 'root': doc.tree.root, 'queue': Fifo(None, []),
+                '_walked': doc}
+
+    modifies = ()
+
+    def post_returns_the_walked_document(result, walked):
+        return result is walked
